@@ -154,9 +154,10 @@ impl<'a> StateMachine<'a> {
 
             if self.source == Source::Unknown {
                 self.source = detect_source(&self.line);
-                // Handle (rare) plain `diff -u file1 file2` header. Done here to avoid having
+                // Handle plain `diff -u file1 file2` / `diff -ru dir1 dir2` output, where a
+                // removed line `-- x` looks like a `--- x` header. Done here to avoid having
                 // to introduce and handle a Source::DiffUnifiedAmbiguous variant everywhere.
-                if self.line.starts_with("--- ") {
+                if self.source == Source::DiffUnified {
                     self.minus_line_counter = AmbiguousDiffMinusCounter::prepare_to_count();
                 }
             }
